@@ -279,6 +279,7 @@ var (
 	vhNoElide   = vhConfig{}
 	vhElideWs   = vhConfig{elide: []string{"Ws"}}
 	vhElideWsCm = vhConfig{elide: []string{"Ws", "Cm"}}
+	vhFarElide  = vhConfig{elide: []string{"Ws", "Cm"}, syms: vhFarSymbols}
 	vhFoldA     = vhConfig{ci: []string{"A"}}
 	vhUnionCfg  = vhConfig{
 		unions: map[reflect.Type][]reflect.Type{
@@ -289,6 +290,7 @@ var (
 )
 
 func VH_C01_Seq()       { vhC01[vgSeq](vhNoElide) }
+func VH_C01_FarTypes()  { vhC01[vgGroup](vhFarElide) }
 func VH_C01_Alt()       { vhC01[vgAlt](vhNoElide) }
 func VH_C01_Opt()       { vhC01[vgOpt](vhNoElide) }
 func VH_C01_Plus()      { vhC01[vgPlus](vhNoElide) }
@@ -415,6 +417,10 @@ func VH_C10_NamedAlt() { vhC01[vgNamedAlt](vhElideWs) }
 func VH_C10_NegOpt()  { vhC10[vgNegOpt](vhElideWs) }
 func VH_C10_NegTail() { vhC10[vgNegTail](vhElideWsCm) }
 
+// the same symbols numbered far from EOF and with positive values
+func VH_C10_FarTypes()    { vhC10[vgAlt](vhFarElide) }
+func VH_C10_FarTypesSeq() { vhC10[vgSeq](vhFarElide) }
+
 func VH_C10_Canary() { VH_C01_Canary() }
 
 func VH_C11_Pos()      { vhC11[vgPos](vhElideWs) }
@@ -422,6 +428,51 @@ func VH_C11_PosPlain() { vhC11[vgPos](vhNoElide) }
 func VH_C11_Embedded() { vhC11[vgPosEmbedded](vhElideWs) }
 
 func VH_C11_PosNeg() { vhC11[vgPosNeg](vhElideWs) }
+
+// nodes with only some of the injected fields, and with Pos / EndPos of two
+// different types (both convertible from lexer.Position)
+type vhOtherPos lexer.Position
+
+type vgEndOnlyInner struct {
+	EndPos lexer.Position
+	V      string `@B`
+	W      string `@C?`
+}
+
+type vgEndOnly struct {
+	EndPos vhOtherPos
+	A      string            `@A?`
+	In     []*vgEndOnlyInner `@@*`
+}
+
+type vgPosMixedInner struct {
+	Pos    vhOtherPos
+	EndPos lexer.Position
+	V      string `@B`
+	W      string `@C?`
+}
+
+type vgPosMixed struct {
+	Pos    lexer.Position
+	EndPos vhOtherPos
+	A      string             `@A?`
+	In     []*vgPosMixedInner `@@*`
+}
+
+type vgTokensOnlyInner struct {
+	Tokens []lexer.Token
+	V      string `@B`
+}
+
+type vgTokensOnly struct {
+	Pos lexer.Position
+	A   string               `@A?`
+	In  []*vgTokensOnlyInner `@@*`
+}
+
+func VH_C11_EndOnly()    { vhC11[vgEndOnly](vhElideWs) }
+func VH_C11_PosMixed()   { vhC11[vgPosMixed](vhElideWs) }
+func VH_C11_TokensOnly() { vhC11[vgTokensOnly](vhElideWs) }
 
 func VH_C11_Canary() { VH_C01_Canary() }
 
